@@ -1,16 +1,21 @@
 #!/bin/sh
 # usage: tools/replay_seeds.sh [seed-id-substring]  - regression test of the checks themselves: every kept seeded change must still be
 # reported (exit 1 with a VIOLATION line) by the check of its property when applied to a scratch copy of /repo's sources.
+# JOBS seeds are replayed in parallel (default 8), all against one frozen snapshot of the machinery.
+if [ "$1" = "--one" ]; then
+  SNAP=$2; d=$3; S=$(mktemp -d /tmp/w2c2-replay-seed1.XXXXXX); trap 'rm -rf "$S"' EXIT
+  id=$(basename "$d"); pid=$(python3 -c "import json;print(json.load(open('$d/meta.json'))['property'])")
+  mkdir -p "$S/repo"; (cd /repo && cp -r w2c2 wasi futex "$S/repo/")
+  if ! patch -s -p1 -d "$S/repo" < "$d/patch.diff" >/dev/null 2>&1; then echo "SKIP $id (patch does not apply to the current tree)"; exit 0; fi
+  VERIF_REPO="$S/repo" VERIF_EVIDENCE_DIR="$S/ev" "$SNAP/check" "$pid" --tier quick > "$S/out" 2>&1; rc=$?
+  if [ $rc -eq 1 ] && grep -q '^VIOLATION' "$S/out"; then echo "DETECTED $id ($pid)"; else echo "NOT DETECTED $id ($pid): exit $rc: $(tail -1 "$S/out" | cut -c1-160)"; fi
+  exit 0
+fi
 S=$(mktemp -d /tmp/w2c2-replay-seeds.XXXXXX); trap 'rm -rf "$S"' EXIT
 # run a frozen snapshot of the machinery (a replay takes long; edits under /verif meanwhile must not leak into it)
 SNAP="$S/verif"; mkdir -p "$SNAP"; cp -r /verif/sa /verif/check /verif/known_findings.json /verif/properties.jsonl "$SNAP/"; ln -s /verif/.cache "$SNAP/.cache"
-ok=0; bad=0
-for d in /verif/seeded/*${1}*/; do
-  id=$(basename "$d"); pid=$(python3 -c "import json;print(json.load(open('$d/meta.json'))['property'])")
-  rm -rf "$S/repo"; mkdir -p "$S/repo"; (cd /repo && cp -r w2c2 wasi futex "$S/repo/")
-  if ! patch -s -p1 -d "$S/repo" < "$d/patch.diff" >/dev/null 2>&1; then echo "SKIP $id (patch does not apply to the current tree)"; continue; fi
-  VERIF_REPO="$S/repo" VERIF_EVIDENCE_DIR="$S/ev" "$SNAP/check" "$pid" --tier quick > "$S/out" 2>&1; rc=$?
-  if [ $rc -eq 1 ] && grep -q '^VIOLATION' "$S/out"; then ok=$((ok+1)); else bad=$((bad+1)); echo "NOT DETECTED $id ($pid): exit $rc: $(tail -1 "$S/out" | cut -c1-160)"; fi
-done
+ls -d /verif/seeded/*${1}*/ | xargs -P ${JOBS:-8} -I{} sh -c '/verif/tools/replay_seeds.sh --one '"$SNAP"' {} > '"$S"'/o.$$ 2>&1; cat '"$S"'/o.$$; rm -f '"$S"'/o.$$' > "$S/log"
+grep -v '^DETECTED' "$S/log"
+ok=$(grep -c '^DETECTED' "$S/log"); bad=$(grep -c '^NOT DETECTED' "$S/log")
 echo "seeded changes detected: $ok, not detected: $bad"
-[ $bad -eq 0 ]
+[ "$bad" -eq 0 ]
